@@ -253,7 +253,21 @@ def element_oracle(label, inst):
             return o
         j1, j2 = canon(inst.to_json()), canon(back.to_json())
         if json.dumps(j1, default=repr, sort_keys=True) != json.dumps(j2, default=repr, sort_keys=True):
-            msgs.append(f'{label}: decoded object differs from the encoded one (field values)')
+            def _diff(a_, b_, path_=''):
+                if isinstance(a_, dict) and isinstance(b_, dict):
+                    for k_ in sorted(set(a_) | set(b_)):
+                        r_ = _diff(a_.get(k_), b_.get(k_), path_ + '.' + str(k_))
+                        if r_:
+                            return r_
+                    return None
+                if isinstance(a_, list) and isinstance(b_, list) and len(a_) == len(b_):
+                    for i_, (x_, y_) in enumerate(zip(a_, b_)):
+                        r_ = _diff(x_, y_, f'{path_}[{i_}]')
+                        if r_:
+                            return r_
+                    return None
+                return None if json.dumps(a_, default=repr, sort_keys=True) == json.dumps(b_, default=repr, sort_keys=True) else f'{path_}: {a_!r} -> {b_!r}'
+            msgs.append(f'{label}: decoded object differs from the encoded one (field values): {str(_diff(j1, j2))[:200]}')
     except Exception as e:
         msgs.append(f'{label}: from_bytes(to_bytes(x)) raised {type(e).__name__}: {e}')
     return msgs
